@@ -11,8 +11,10 @@ import Spec.Crc
 import Proofs.Lemmas.CrcLin
 import Proofs.Lemmas.CrcModel
 import Proofs.Lemmas.Crc32
+import Proofs.Lemmas.CrcBack
 namespace Proofs.C15
 open Model Model.Crc Proofs.Lemmas.CrcLin Proofs.Lemmas.CrcModel Proofs.Lemmas.Crc32
+open Proofs.Lemmas.CrcBack (backLoop_preimage backLoop_reg_rev crcBackTable_eq backEntry_eq steps_bsteps bsteps_lt shl_top_lt)
 open Spec.Crc (register)
 
 /-- a byte string -/
@@ -109,6 +111,66 @@ theorem forward_inverts_back (data : List Nat) (hd : Bytes data) (pos : Nat) (hp
     show reg32 R (data.drop pos) ^^^ M32 = c
     rw [hreg]
     calc _ = c ^^^ (M32 ^^^ M32) := by ac_rfl
+      _ = c := by simp
+
+/-! ## backward computation, every polynomial -/
+
+/-- every entry of `crc_back_table(P)` is the 8-step preimage of its index placed in the top byte: eight bit-steps of
+    the bit-serial definition (zero message bits) applied to entry n give `n << (w-8)` — for every reflected polynomial
+    whose top bit (the x^0 coefficient) is set, every width ≥ 8 -/
+theorem back_table_entry (P : Bits) (hP : P.WF) (hw : 8 ≤ P.size) (htop : P.ival.testBit (P.size - 1) = true)
+    (n : Nat) (hn : n < 256) :
+    ∃ tb e, crcBackTable P = .ok tb ∧ tb.length = 256 ∧ tb[n]? = some ⟨e, P.size⟩ ∧ e < 2 ^ P.size
+      ∧ (List.replicate 8 false).foldl (Spec.Crc.bitIn P.ival) e = n <<< (P.size - 8) := by
+  refine ⟨_, Proofs.Lemmas.CrcBack.bsteps P.ival P.size 8 (n <<< (P.size - 8)), crcBackTable_eq P hw, by simp, ?_, ?_, ?_⟩
+  · rw [List.getElem?_map, List.getElem?_range hn]
+    simp only [Option.map_some]
+    rw [backEntry_eq P hw n hn]
+  · exact bsteps_lt _ _ 8 _ (by omega) (shl_top_lt n P.size hn hw)
+  · rw [foldl_zero_bits]
+    exact steps_bsteps P.ival P.size (by omega) hP htop 8 _ (shl_top_lt n P.size hn hw)
+
+/-- **back_inverts_forward, generic**: for every such polynomial, every final xor value, every start register r0 and
+    every position, `crc_back_pos(data,pos,crc_back_table(P),Xfinal,c)` run from the value c the forward computation
+    reaches over `data[pos:]` returns exactly r0 -/
+theorem back_inverts_forward_generic (P : Bits) (hP : P.WF) (hw : 8 ≤ P.size)
+    (htop : P.ival.testBit (P.size - 1) = true) (data : List Nat) (hd : Bytes data) (pos : Nat)
+    (hpos : pos < data.length) (xfinal : Nat) (hx : xfinal < 2 ^ P.size) (r0 : Nat) (hr : r0 < 2 ^ P.size) :
+    ∃ tb, crcBackTable P = .ok tb ∧
+      crcBackPos data (pos : Int) tb (xfinal : Int)
+        ((Spec.Crc.register P.ival r0 (data.drop pos) ^^^ xfinal : Nat) : Int) = .ok (some r0) := by
+  refine ⟨_, crcBackTable_eq P hw, ?_⟩
+  have hdd : ∀ b ∈ data.drop pos, b < 256 := fun b hb => hd b (List.mem_of_mem_drop hb)
+  have hreg := (fwdLoop_eq P hP hw (data.drop pos) r0 hdd hr).2
+  rw [Proofs.Lemmas.CrcBack.crcBackPos_eq P hw data pos xfinal _ hpos (Nat.xor_lt_two_pow hreg hx)]
+  have : (xfinal % 2 ^ P.size) ^^^ (register P.ival r0 (data.drop pos) ^^^ xfinal)
+      = register P.ival r0 (data.drop pos) := by
+    rw [Nat.mod_eq_of_lt hx]
+    calc _ = register P.ival r0 (data.drop pos) ^^^ (xfinal ^^^ xfinal) := by ac_rfl
+      _ = _ := by simp
+  rw [this]
+  have h := backLoop_reg_rev P hP hw htop (data.drop pos).reverse r0
+    (fun b hb => hdd b (List.mem_reverse.1 hb)) hr
+  rw [List.reverse_reverse] at h
+  rw [h]; rfl
+
+/-- **forward_inverts_back, generic**: for every w-bit value c, `crc_back_pos` returns a w-bit register from which the
+    forward computation over `data[pos:]` (final xor applied) gives c -/
+theorem forward_inverts_back_generic (P : Bits) (hP : P.WF) (hw : 8 ≤ P.size)
+    (htop : P.ival.testBit (P.size - 1) = true) (data : List Nat) (hd : Bytes data) (pos : Nat)
+    (hpos : pos < data.length) (xfinal : Nat) (hx : xfinal < 2 ^ P.size) (c : Nat) (hc : c < 2 ^ P.size) :
+    ∃ tb R, crcBackTable P = .ok tb ∧ crcBackPos data (pos : Int) tb (xfinal : Int) (c : Int) = .ok (some R)
+      ∧ R < 2 ^ P.size ∧ Spec.Crc.register P.ival R (data.drop pos) ^^^ xfinal = c := by
+  have hdd : ∀ b ∈ (data.drop pos).reverse, b < 256 :=
+    fun b hb => hd b (List.mem_of_mem_drop (List.mem_reverse.1 hb))
+  have hstart : (xfinal % 2 ^ P.size) ^^^ c < 2 ^ P.size :=
+    Nat.xor_lt_two_pow (Nat.mod_lt _ (Nat.two_pow_pos _)) hc
+  obtain ⟨R, hR, hlt, hreg⟩ := backLoop_preimage P hP hw htop _ _ hdd hstart
+  refine ⟨_, R, crcBackTable_eq P hw, ?_, hlt, ?_⟩
+  · rw [Proofs.Lemmas.CrcBack.crcBackPos_eq P hw data pos xfinal c hpos hc, hR]; rfl
+  · rw [List.reverse_reverse] at hreg
+    rw [hreg, Nat.mod_eq_of_lt hx]
+    calc _ = c ^^^ (xfinal ^^^ xfinal) := by ac_rfl
       _ = c := by simp
 
 /-! ## forging helpers -/
@@ -225,7 +287,7 @@ theorem crc32_fix_pos_hits_target (data : List Nat) (hd : Bytes data) (hlen : 4 
 
 example : Bytes [0x31, 0x32, 0x33, 0x34, 0x35, 0x36, 0x37, 0x38, 0x39] := by unfold Bytes; decide
 example : (crc32 [0x31, 0x32, 0x33, 0x34, 0x35, 0x36, 0x37, 0x38, 0x39]).toOption = some 0xCBF43926 := by decide +kernel
-example : (⟨0xA001, 16⟩ : Bits).WF ∧ 8 ≤ (⟨0xA001, 16⟩ : Bits).size := by decide
+example : (⟨0xA001, 16⟩ : Bits).WF ∧ 8 ≤ (⟨0xA001, 16⟩ : Bits).size ∧ (0xA001 : Nat).testBit (16 - 1) = true := by decide
 example : (crc32Fix [1, 2, 3, 4, 5, 6] 0xdeadbeef).toOption = some [1, 2, 81, 154, 232, 176] := by decide +kernel
 example : (crc32FixPos [1, 2, 3, 4, 5, 6] 1 0xdeadbeef).toOption = some [1, 61, 108, 183, 142, 6] := by decide +kernel
 example : (crc32 [1, 61, 108, 183, 142, 6]).toOption = some 0xdeadbeef := by decide +kernel
